@@ -75,6 +75,7 @@ type Options struct {
 
 // Passport is a personalised chip plus everything the harness knows about it.
 type Passport struct {
+	SODOrder []int // data group numbers in the order of the security object's hash list
 	Opt      Options
 	Cfg      chipsim.Config
 	MRZ      string            // TD3 zone
@@ -357,6 +358,14 @@ func New(o Options) (*Passport, error) {
 	sod, err := pki.BuildSOD(sodSpec)
 	if err != nil {
 		return nil, err
+	}
+	if sodSpec.DGOrder != nil {
+		p.SODOrder = append([]int{}, sodSpec.DGOrder...)
+	} else {
+		for n := range sodSpec.DGs {
+			p.SODOrder = append(p.SODOrder, n)
+		}
+		sort.Ints(p.SODOrder)
 	}
 	if o.IssuerTrusted {
 		p.Trust = [][]byte{csca.Cert}
